@@ -60,8 +60,8 @@ func Message(t *rapid.T, prev []byte, bufSize int) []byte {
 func Items(t *rapid.T, bufSize int, maxItems int) []midiref.Item {
 	var items []midiref.Item
 	n := rapid.IntRange(1, maxItems).Draw(t, "nItems")
-	if maxItems >= 30 && rapid.IntRange(0, 24).Draw(t, "longStream?") == 0 {
-		n = rapid.IntRange(300, 1500).Draw(t, "nItemsLong") // one stream in 25 is long
+	if maxItems >= 30 && rapid.IntRange(0, 59).Draw(t, "longStream?") == 0 {
+		n = rapid.IntRange(300, 1500).Draw(t, "nItemsLong") // one stream in 60 is long
 	}
 	var prev []byte
 	for i := 0; i < n; i++ {
